@@ -37,7 +37,7 @@ prop( 'C12', [ 'T-CLIENT-TYPES', 'P-BUNDLE', 'P-FRESH', 'T-PATHSYNTAX', 'S-COMPL
       not_decided='equality of result sequences across depth/bundling settings (dynamic).',
       technique='table extraction from AST + interval containment; guard-shape checks' )
 
-prop( 'C16', [ 'T-RESERVED', 'D-DELEGATE', 'D-RESOLVE', 'D-UNPACK', 'D-ITER', 'D-ATOMIC', 'D-INDEXSPLIT', 'W-ASSERT' ],
+prop( 'C16', [ 'T-RESERVED', 'D-DELEGATE', 'D-RESOLVE', 'D-UNPACK', 'D-ITER', 'D-ATOMIC', 'D-INDEXSPLIT', 'W-ASSERT', 'D-SETDEFAULT', 'D-COPYLIST' ],
       decides='D-ITER: key iteration descends only into values tested to be levels - a list only under a test covering every element.  T-RESERVED also: the leaf store and the creation of an interior level ( super().setdefault( name, dotdict() )) are both dominated, on the CFG of __setitem__, by the refusing test of the name against __invalid_keys__ / the dunder prefix.  T-RESERVED: every non-dunder name that ordinary attribute lookup finds on a dotdict before __getattr__ (methods '
               'and class attributes of dotdict_base plus dict\'s public API) is refused as a key by the guarded leaf store; '
               'D-DELEGATE: attribute access, get, setdefault and membership are defined through __getitem__/__setitem__ and all '
@@ -45,7 +45,7 @@ prop( 'C16', [ 'T-RESERVED', 'D-DELEGATE', 'D-RESOLVE', 'D-UNPACK', 'D-ITER', 'D
       not_decided='path semantics over operation sequences (lookup/iteration/copy agreement is a dynamic, history-dependent claim).',
       technique='name-set comparison over class AST; delegation-shape checks' )
 
-prop( 'C19', [ 'M-EXTENT', 'M-TILE', 'M-BANK', 'M-LIMIT', 'M-PIECES', 'M-SNAPSHOT', 'W-ASSERT', 'W-CLASSSTATE' ],
+prop( 'C19', [ 'M-EXTENT', 'M-TILE', 'M-BANK', 'M-LIMIT', 'M-PIECES', 'M-SNAPSHOT', 'W-ASSERT', 'W-CLASSSTATE', 'M-READCOUNT' ],
       decides='M-PIECES: every range merge yields is a piece of a shatter() generator that is consumed by the emitting loop only (a second use of the generator object would leave nothing to yield).  M-EXTENT: in merge\'s sorted sweep the running length update in the merge branch depends on its previous value '
               '(monotone join), so a nested/duplicate range cannot shrink the extent; M-TILE: shatter yields (address, taken) once, '
               'advances address and shrinks count by the same taken = min( count, limit ); M-BANK: the merge condition, evaluated as a decision table over a grid of ( running range, next start, reach ) cells, merges exactly when the next range begins inside the running one ( whatever its 10000-block ) or lies in the same 10000-block with a gap below the reach; an empty range never extends the running range; over sorted '
@@ -54,14 +54,14 @@ prop( 'C19', [ 'M-EXTENT', 'M-TILE', 'M-BANK', 'M-LIMIT', 'M-PIECES', 'M-SNAPSHO
       not_decided='disjointness/limit/reach arithmetic over all numeric inputs.',
       technique='def-use shape of the sweep loop (AST); merge condition decided as a folded decision table; who-iterates-what rule for the shared address table' )
 
-prop( 'C20', [ 'T-TNET', 'P-CHAIN', 'G-CHUNK', 'G-REF', 'P-SEPARATORS' ],
+prop( 'C20', [ 'T-TNET', 'P-CHAIN', 'G-CHUNK', 'G-REF', 'P-SEPARATORS', 'T-TNETNUM' ],
       decides='T-TNET: every type tag dump/dump_dict/dump_list emits has a parse branch whose conversion is the enumerated inverse of '
               'the encoder idiom (same encoding name on both sides), dispatch is by exact type, payload framing splits at the first '
               'colon and slices exactly the declared length, and the streaming machine has a DATA edge for every tag its TYPE state handles.  T-TNET also: the incremental parser converts each tag like tnetstrings.parse (same decoder kind; for text the batch parser\'s default codec).  P-SEPARATORS: the chunking clause of tnet_from that is visible in its shape - on every path from the site where a received block is chained back to the engine a discard of the ignored symbols is passed, that discard is guarded by source.sent == <marker only ever holding source.sent, set ahead of each engine run> (so payload bytes are never discarded) and the marker follows each discarded symbol.',
       not_decided='value round trip for all values, nesting depth; chunking beyond the separator / chain-unmodified / chunk-transparent-grammar clauses (dynamic).',
       technique='encoder/decoder idiom classification over dispatch chains (AST pattern matching); grammar extraction' )
 
-prop( 'C03', [ 'W-ATTR', 'D-VALIDATE', 'R-SNAPSHOT', 'D-TYPE', 'T-TYPENAMES', 'T-ATTRKEYS', 'T-SYMBOL', 'D-PATHSTOP', 'K-KEYPASS', 'T-RETAG', 'T-TAGLOOP', 'D-OWNPATH', 'D-UNPACKFMT', 'F-FRAG', 'P-ROUTEFIRST', 'F-STATUS', 'W-ASSERT', 'S-PHASE', 'T-BOOL', 'L-STRLEN', 'W-PRINT' ],
+prop( 'C03', [ 'W-ATTR', 'D-VALIDATE', 'R-SNAPSHOT', 'D-TYPE', 'T-TYPENAMES', 'T-ATTRKEYS', 'T-SYMBOL', 'D-PATHSTOP', 'K-KEYPASS', 'T-RETAG', 'T-TAGLOOP', 'D-OWNPATH', 'D-UNPACKFMT', 'F-FRAG', 'P-ROUTEFIRST', 'F-STATUS', 'W-ASSERT', 'S-PHASE', 'T-BOOL', 'L-STRLEN', 'W-PRINT', 'W-ATTRTABLE' ],
       decides='T-TAGLOOP: main()\'s per-tag configuration loop reads no local on a path of the iteration that has not assigned it (no address / attribute carried over from the previous tag argument).  T-RETAG: setup_tag stores the CONFIGURED Attribute into the instance\'s attribute table at both sites (creation, replacement of an existing tag) - a replacement that stores the existing Attribute back keeps serving the array of an earlier configuration.  storage-discipline clauses only.  W-ATTR: tags are mutated only by statements reachable for the write services '
               '(Write Tag, Write Tag Fragmented, Set Attribute Single) - no read service and no refused request changes a tag; '
               'D-VALIDATE: the tag store is dominated by type and range validation, the stored slice is the validated (beg,end), the write-capacity '
@@ -90,7 +90,7 @@ prop( 'C06', [ 'X-SERVICES', 'P-REPLYBIT', 'P-ONE', 'P-PROCEED', 'D-ECHO', 'S-ST
       not_decided='framing of reply values, randomness of session handles, socket-level pipelining behaviour (dynamic).',
       technique='sibling exhaustiveness (set comparison of folded constants); path effect counting on the CFG; must-pass-through; zero-count store rules' )
 
-prop( 'C17', [ 'T-CMP', 'T-DURATION', 'T-LOCALIZE', 'T-RENDER', 'T-CACHE', 'T-ZONETOKEN', 'W-STRIPSET' ],
+prop( 'C17', [ 'T-CMP', 'T-DURATION', 'T-LOCALIZE', 'T-RENDER', 'T-CACHE', 'T-ZONETOKEN', 'W-STRIPSET', 'T-OFFSET', 'T-DURTEXT' ],
       decides='T-CMP: the six timestamp comparison operators form one family - __lt__/__gt__ shift by the class _epsilon = 10**-_precision, '
               '__le__/__ge__/__eq__/__ne__ are their negations/disjunction - and render( ms=True )/__str__ use the same _precision, so '
               'comparison and rendering resolution cannot drift apart; T-DURATION: each (unit, suffix) pair duration._format emits is the pair '
@@ -228,7 +228,7 @@ prop( 'C10', [ 'G-BOUND', 'G-REF', 'R-LIMIT', 'R-SENT', 'R-REPEAT', 'G-PRIMS', '
       technique='reference resolution over extracted grammar graphs; boundedness analysis with a consumption model; AST idiom matching and '
                 'CFG effect counting on the framework' )
 
-prop( 'C09', [ 'R-LOCK-1', 'R-LOCK-6', 'R-LOCK-2', 'R-LOCK-3', 'R-LOCK-4', 'R-LOCK-5', 'R-ISO', 'R-SNAPSHOT', 'P-CLOSURE', 'G-INIT', 'R-STATELESS' , 'P-ROUTE', 'T-TAGLOOP', 'W-CLASSSTATE', 'R-REENTRANT', 'W-ITERDEL' ],
+prop( 'C09', [ 'R-LOCK-1', 'R-LOCK-6', 'R-LOCK-2', 'R-LOCK-3', 'R-LOCK-4', 'R-LOCK-5', 'R-ISO', 'R-SNAPSHOT', 'P-CLOSURE', 'G-INIT', 'R-STATELESS' , 'P-ROUTE', 'T-TAGLOOP', 'W-CLASSSTATE', 'R-REENTRANT', 'W-ITERDEL', 'W-ATTRTABLE' ],
       decides='P-ROUTE ( replies only to one\'s own requests, gateway case ): every check of a routed response lies inside the try whose handler drops the shared route connection, so a timed-out response is never left in flight for the next session.  T-TAGLOOP also: main() finds a tag already configured at the same address by its resolved ( class, instance, attribute ), so two names for one attribute share ONE Attribute object.  R-SNAPSHOT also: a vector is written in place - its storage list is never re-bound ( no copy-modify-install ).  lock-discipline clauses.  R-LOCK-1: every <m>.run( source=... ) on a state machine outside automata.py happens while <m> is '
               'held by an enclosing `with ... as <m>` (client.__next__\'s self.frame.run is dominated by self.frame.safe() in a class whose '
               '__enter__/__exit__ delegate to the frame) - covers every interleaving of every number of sessions; R-LOCK-2: class-level '
